@@ -7,6 +7,7 @@ package main
 import (
 	"fmt"
 	"strings"
+	"unicode/utf8"
 )
 
 var keyAlpha = []string{"a", "b", "c", "k", "item", "-x", "-id", "#text", "ns:a", "A", "a-b", "_seq", "list", "d"}
@@ -122,13 +123,27 @@ func (r *Rng) RootMap(c *GenCfg) map[string]interface{} {
 	}
 }
 
+// bigSize: beyond 64 KB, or exactly at / next to a power-of-two buffer size.
+func (r *Rng) bigSize() int {
+	if r.Bool() {
+		return 66000 + r.Intn(9000)
+	}
+	return []int{4095, 4096, 4097, 8191, 8192, 8193, 16384, 32768, 65535, 65536, 65537}[r.Intn(11)]
+}
+
 // bigString: n characters with some special ones and multi-byte runes spread through it.
 func (r *Rng) bigString(n int) string {
 	var sb strings.Builder
 	for sb.Len() < n {
 		sb.WriteString(r.Pick([]string{"abcdefghijklmnopqrstuvwxyz0123456789", "x<y", "R&D ", "é日本", "}{\"", "  ", "0123456789"}))
 	}
-	return sb.String()
+	s := sb.String()
+	// exactly n bytes, cut at a rune boundary and padded with ASCII
+	for len(s) > n {
+		_, w := utf8.DecodeLastRuneInString(s)
+		s = s[:len(s)-w]
+	}
+	return s + strings.Repeat("z", n-len(s))
 }
 
 // enlarge adds one large part to a Map: a long string, a wide list, a long key or a deep chain.
@@ -136,7 +151,7 @@ func (r *Rng) enlarge(m map[string]interface{}, c *GenCfg) {
 	k := r.Pick(plainKeys)
 	switch r.Intn(5) {
 	case 0:
-		m[k] = r.bigString(66000 + r.Intn(9000))
+		m[k] = r.bigString(r.bigSize())
 	case 1:
 		n := 1000 + r.Intn(3000)
 		l := make([]interface{}, n)
